@@ -325,8 +325,12 @@ func (c *ColLowCardinality[T]) Prepare() error {
 	c.keys = append(c.keys[:0], make([]int, len(c.Values))...)
 	if c.kv == nil {
 		c.kv = map[T]int{}
-		c.index.Reset()
 	}
+	// Rebuilding dictionary from scratch: keys are numbered from zero on every
+	// call, so entries of previous Prepare (or of decoded block) must not be
+	// reused.
+	clear(c.kv)
+	c.index.Reset()
 
 	// Fill keys with value indexes.
 	var last int
